@@ -18,12 +18,13 @@ RULE = ("copulas: Clayton (theta log-uniform in [0.2,5] or exactly 1; eta unifor
         "a few degenerate finite sides; every sign pattern is forced in turn. non-trivial = at least one finite non-zero entry; "
         "distinct = distinct (probe, copula parameters, vectors)")
 NOT_PROVED = [
-    "2-increasing for d=3 (all copulas) is oracle-checked / compared with M only",
-    "2-increasing of the dependent copula on rectangles with infinite end points is compared with M only (finite rectangles: theorem)",
-    "convexity of s -> s^(-1/theta) (the slope hypothesis of claytonOf_two_increasing) is proved for theta = 1 only; for other theta it is a hypothesis",
-    "the mixed derivative (x_first_derivative) is compared with M at theta = 1 and with mpmath derivatives of formula (7), not proved",
-    "the conditional distribution being the xi-derivative of F(xi,x)-F(xi,-inf), its monotonicity and limits are oracle-checked; only the inverse identity is a theorem (abstract powers)",
-    "general theta: the float powers abs(u)**(-theta), s**(-1/theta) are compared with mpmath, not modelled",
+    "d-increasing in d = 3 (all three copulas) is oracle-checked / compared with M only; the theorems cover d = 2",
+    "dependent copula: non-negative volume is a theorem for finite rectangles; rectangles with infinite end points are compared with M exactly and oracle-checked only",
+    "independent copula: the theorem excludes the rectangles having a corner (inf,inf), (-inf,inf) or (inf,-inf), where the code deviates from Kallsen-Tankov (4.2) (known finding, negation witness proved)",
+    "Clayton for general theta: the theorems are about exact real arithmetic (Real.rpow, every theta > 0, eta in [0,1]) and rectangles without a corner having two infinite entries; "
+    "the float evaluation abs(u)**(-theta), s**(-1/theta) is compared with mpmath, and the value at corners with two infinite entries (inf / NaN) is modelled exactly for theta = 1 only",
+    "the mixed derivative (x_first_derivative) is compared with M at theta = 1 and with mpmath partial derivatives of formula (7); no derivative is proved",
+    "the conditional distribution being the xi-derivative of F(xi,x)-F(xi,-inf), its monotonicity and its limits 0/1 are oracle-checked; the inverse identity is a theorem (abstract powers and Real.rpow)",
 ]
 ASSUMPTIONS = ["x_first_derivative is read as sign(prod u) * d^dF/du_1..du_d (what the code returns and what the property's "
                "'times the product of its arguments' can only mean: the literal product u_1*...*u_d fails at every input)",
